@@ -27,7 +27,8 @@ def generate(ctx):
              "reward": rng.choice(["scalar+", "scalar-", "tensor", "tensor"]), "scale": rng.choice([1.0, 0.5, -0.5, -1.5]),
              "p": rng.choice([0.2, 0.4, 0.7]), "seed": rng.randrange(1 << 30), "delay": rng.choice([1, 2, 3]),
              "delay_values": rng.choice(["ongrid", "offgrid", "zero"]), "reassign_delays": rng.random() < 0.4,
-             "per_cell": rng.random() < 0.4, "inplace": rng.random() < 0.5, "online": rng.random() < 0.3, "clear_at": rng.choice([None, None, 2, 3, 5]), "keepshape": rng.random() < 0.6,
+             "per_cell": rng.random() < 0.4, "inplace": rng.random() < 0.5, "online": rng.random() < 0.3,
+             "interp_tolerance": rng.choice([0.0, 0.0, 0.3, 0.5, 0.75]), "clear_at": rng.choice([None, None, 2, 3, 5]), "keepshape": rng.random() < 0.6,
              "tensor_kwargs": rng.choice([[], [], ["post_learning_rate"], ["post_time_constant", "pre_learning_rate"],
                                           ["post_learning_rate", "post_time_constant"], ["pre_time_constant"]])}
         if rng.random() < 0.4:
@@ -138,6 +139,12 @@ def _formula(ctx, desc):
     a, b = c08.SIGNS[desc["signs"]]
     hyper = {"lr_a": a, "lr_b": b, "delayed": desc.get("delayed", False), "tensor_kwargs": desc.get("tensor_kwargs", []),
              "inplace": bool(desc.get("inplace")), "kernel": desc.get("kernel")}
+    if desc.get("interp_tolerance") and name.startswith("DelayAdjusted"):
+        # (KernelSTDP reads its presynaptic event times through the delay-offset view, where the tolerance legitimately snaps
+        # a read to a stored step: only the delay-adjusted rules, which subtract the delay themselves, are given one)
+        # the documented time tolerance of the trainers' delayed reads: the causal branch is still chosen iff t_delta >= 0
+        hyper["interp_tolerance"] = desc["interp_tolerance"]
+        ctx.count("cases_with_a_positive_interpolation_tolerance")
     if desc.get("kernel"):
         ctx.count("user_kernel_cases")
     _continuous(desc, hyper, a, b)
